@@ -659,7 +659,8 @@ def judge_nf(spec, w):
     if w.crashed:
         return [('rt:exception-escaped-tick', 'exception escaped tick(): %s' % w.crashed)]
     log = w.log
-    bad.extend(judge_wire({key: w.packets(key) for key in w.wire}))
+    allpk = {key: w.packets(key) for key in w.wire}
+    bad.extend(judge_wire(allpk))
     kinds = ''.join(nf_kinds(spec))
     expected_exc = set()
     calls = [k for k, c in enumerate(kinds) if c == 'C']
@@ -673,18 +674,29 @@ def judge_nf(spec, w):
             k, kinds, info['src'], info['dst'], name, 'awaited call' if kinds[k] == 'C' else 'notification via ' + e['nr'], beh)
         runs = [x for x in log if x[0] == 'run' and x[3] == k]
         res = [x for x in log if x[0] == 'res' and x[2] == k]
-        elsewhere = [x for x in runs if not (x[1] in dsts and x[2] == 'app')]
+        want = {dst: 1 for dst in dsts}
+        # connections of ANOTHER server of the process on which the event was written (one defect, one signature: the
+        # executions that follow from it are not reported again, everything else is still judged)
+        foreign = [li for li, (c, _, s) in enumerate(LINKS) if s != info['src']
+                   and any(p[0] == 'call' and p[2] == name for p in allpk.get('%dd' % li, []))]
+        if foreign:
+            bad.append(('%s:transmitted-on-connections-of-another-server' % (e.get('nr') or 'call'),
+                        '%s: sent by server %s, but also written to %s' % (tag, info['src'], ', '.join(
+                            'the connection %s-%s of server %s' % (LINKS[li][0], LINKS[li][1], LINKS[li][2]) for li in foreign))))
+            for li in foreign:
+                want[LINKS[li][0]] = want.get(LINKS[li][0], 0) + 1
+        elsewhere = [x for x in runs if not (x[1] in want and x[2] == 'app')]
         if elsewhere:
             bad.append((pos + ':executed-elsewhere', '%s: handler ran at %r' % (tag, [(x[1], x[2]) for x in elsewhere])))
         executed = True
-        for dst in dsts:
+        for dst in sorted(want):
             good = [x for x in runs if x[1] == dst and x[2] == 'app']
             if beh == 'raise':
                 expected_exc.add((dst, name))
             if not good:
                 executed = False
                 bad.append((pos + ':not-executed', '%s: handler on peer %s never ran' % (tag, dst)))
-            elif len(good) > 1:
+            elif len(good) != want[dst]:
                 bad.append((pos + ':executed-%d-times' % min(len(good), 2), '%s: handler on peer %s ran %d times' % (tag, dst, len(good))))
             else:
                 if good[0][4] != 'same':
